@@ -165,6 +165,12 @@ int main(int argc, char** argv) {
         if (v == "ctor.p") { out << fields(F); haveElt = false; }
         else if (v == "ctor.copy") { Open G(F); out << fields(G); haveElt = false; }
         else if (v == "ctor.assign") { Open G(3); G = F; out << fields(G); haveElt = false; }
+        else if (v == "assign.use" || v == "copy.use") {     // init, inv, mulin, addin, convert, div on an ASSIGNED / COPIED ring
+            Open G(3); if (v == "assign.use") G = F; Open H(F); const Open& R = (v == "assign.use") ? G : H;
+            Elt u, w, d; uint32_t t, t2; R.init(u, U(0)); R.inv(w, u); R.mulin(w, u); R.addin(w, u); R.convert(t, w);
+            R.div(d, u, U(1)); R.convert(t2, d);
+            out << w << " " << t << " " << d << " " << t2; haveElt = false;
+        }
         else if (v == "redc") { out << F.x_redc(U(0)); haveElt = false; }
         else if (v == "redcal") { out << F.x_redcal(U(0)); haveElt = false; }
         else if (v == "redcsal") { out << F.x_redcsal(U(0)); haveElt = false; }
